@@ -86,8 +86,33 @@ fn fragmentize(ts: TokenStream) -> TokenStream {
     }
     out.into_iter().collect()
 }
+/// `__FRAG(tokens)` in a seed text stands for `tokens` inside an invisible group, as a `macro_rules!` fragment arrives
+fn defrag(ts: TokenStream) -> TokenStream {
+    let toks: Vec<TokenTree> = ts.into_iter().collect();
+    let mut out: Vec<TokenTree> = Vec::new();
+    let mut i = 0;
+    while i < toks.len() {
+        match (&toks[i], toks.get(i + 1)) {
+            (TokenTree::Ident(id), Some(TokenTree::Group(g))) if id == "__FRAG" && g.delimiter() == Delimiter::Parenthesis => {
+                out.push(TokenTree::Group(proc_macro2::Group::new(Delimiter::None, defrag(g.stream()))));
+                i += 2;
+            }
+            (TokenTree::Group(g), _) => {
+                let mut n = proc_macro2::Group::new(g.delimiter(), defrag(g.stream()));
+                n.set_span(g.span());
+                out.push(TokenTree::Group(n));
+                i += 1;
+            }
+            (t, _) => {
+                out.push(t.clone());
+                i += 1;
+            }
+        }
+    }
+    out.into_iter().collect()
+}
 fn lex_item(item: &str) -> Result<TokenStream, String> {
-    let i = lex(item)?;
+    let i = defrag(lex(item)?);
     Ok(if FRAGMENTS.with(|f| f.get()) { fragmentize(i) } else { i })
 }
 
@@ -167,9 +192,9 @@ pub fn expand_derive(item: &str) -> Result<TokenStream, String> {
 pub fn expand_derive_iterated(item: &str) -> Result<TokenStream, String> {
     use quote::ToTokens;
     let mut out = expand_derive(item)?;
-    let mut parsed: syn::Item = match syn::parse_str(item) {
-        Ok(i) => i,
-        Err(_) => return Ok(out),
+    let mut parsed: syn::Item = match lex_item(item).ok().and_then(|t| syn::parse2(t).ok()) {
+        Some(i) => i,
+        None => return Ok(out),
     };
     let attrs: &mut Vec<syn::Attribute> = match &mut parsed {
         syn::Item::Struct(x) => &mut x.attrs,
